@@ -30,4 +30,8 @@ VARIANTS = [
       also=(("src/soundevent/data/clips.py", "    @model_validator(mode=\"after\")\n    def _validate_times(self):", "    @field_validator(\"start_time\", \"end_time\")\n    def _microseconds(cls, v):\n        return round(v, 6)\n\n    @model_validator(mode=\"after\")\n    def _validate_times(self):"),)),
     V("clip-before-validator-rewrites(G.5)", "src/soundevent/data/clips.py", "            raise ValueError(\"start_time must be less than end_time\")\n        return self", "            raise ValueError(\"start_time must be less than end_time\")\n        self.start_time = round(self.start_time, 6)\n        return self", "G.5"),
     V("segments-built-without-validation(G.10)", "src/soundevent/operations.py", "        yield data.Clip(", "        yield data.Clip.model_construct(", "G.10"),
+    # G.12: rejections of valid requests
+    V("window-longer-than-clip-rejected(G.12)", O, "    num_segments = math.ceil(clip.duration / hop)", "    if duration > clip.duration:\n        raise ValueError(\"The window is longer than the clip.\")\n\n    num_segments = math.ceil(clip.duration / hop)", "G.12"),
+    V("hop-larger-than-duration-rejected(G.12)", O, "    num_segments = math.ceil(clip.duration / hop)", "    if hop > duration:\n        raise ValueError(\"The hop leaves gaps.\")\n\n    num_segments = math.ceil(clip.duration / hop)", "G.12"),
+    V("N-guards-in-one-test", O, "    if duration <= 0:\n        raise ValueError(\"Duration must be positive.\")\n\n    if hop <= 0:\n        raise ValueError(\"Hop size must be positive.\")", "    if duration <= 0 or hop <= 0:\n        raise ValueError(\"Duration and hop size must be positive.\")", None),
 ]
